@@ -18,8 +18,10 @@ import (
 	"math/rand"
 	"os"
 	"reflect"
+	"runtime"
 	"sort"
 	"strings"
+	"sync"
 	"time"
 
 	"github.com/antonmedv/expr"
@@ -72,6 +74,8 @@ const (
 var oFnID = map[string]string{"Id": "Id", "Inc": "Inc", "Add": "Add", "Cat": "Cat", "IsPos": "IsPos", "Fail": "Fail", "Fast": "Fast",
 	"Sum": "Sum", "Half": "Half", "I64f": "I64", "I8f": "I8", "U8f": "U8", "U64f": "U64", "F32f": "F32", "Up": "Up", "Neg": "Neg"}
 
+var oRegOnce sync.Once
+
 func oMapEnv(e *Env) map[string]interface{} {
 	m := e.AsMap()
 	log := e.log
@@ -82,12 +86,15 @@ func oMapEnv(e *Env) map[string]interface{} {
 	up := func(s string) string { log.add("Up", s); return s + "!" }
 	neg := func(x int) int { log.add("Neg", x); return -x }
 	m["I8f"], m["U8f"], m["U64f"], m["F32f"], m["Up"], m["Neg"] = i8, u8, u64, f32, up, neg
-	registerFn("I8", i8)
-	registerFn("U8", u8)
-	registerFn("U64", u64)
-	registerFn("F32", f32)
-	registerFn("Up", up)
-	registerFn("Neg", neg)
+	// closures of one function literal share their code pointer: registering once is enough
+	oRegOnce.Do(func() {
+		registerFn("I8", i8)
+		registerFn("U8", u8)
+		registerFn("U64", u64)
+		registerFn("F32", f32)
+		registerFn("Up", up)
+		registerFn("Neg", neg)
+	})
 	return m
 }
 
@@ -526,6 +533,8 @@ type optCase struct {
 	EnvVal   interface{}
 	Real     *optReal
 	modelIdx int
+	env2     *Env                // second environment value for the oracle
+	found    []*pendingViolation // deviations found by the oracle on this case
 }
 
 func (cs *optCase) String() string {
@@ -567,6 +576,7 @@ var optFixed = []string{
 	`I in 1..3`, `I not in 1..3`, `F in 1..3`, `S in 1..3`, `nil in 1..3`, `Inc(I) in 1..3`, `I in 3..1`, `I in (1 - 2)..3`, `I in -1..3`, `I8 in 1..3`, `U in 1..3`, `I in I..3`, `Z in 1..3`,
 	`1..3`, `3..1`, `3..3`, `1..1000001`, `0..1000000`, `-2..2`, `I in 0..4611686018427387904`, `F in 0..4611686018427387904`, `I8 in -5..255`, `I8 in 1..3`, `U8 in -100..100`, `I64 in -5..255`, `(-9223372036854775807 - 1)..9223372036854775807`,
 	`map(1..3, {# * 2})`, `all(1..3, {# in 1..2})`, `filter(Ints, {# in [1, 2]})`,
+	`Half((7 % 2) - 3)`, `Half((7 % 2) + 3)`, `Half(3 - (7 % 2))`, `I64f((7 % 2) * 3)`, `Half(3 / (7 % 4))`, `Half(-(7 % 2))`, `Half((7 % 2) - 3 - 1)`, `Add(1, (7 % 2) - 3)`,
 	`Half(1 / 2)`, `Half(1)`, `Half(-0)`, `Half(9007199254740993 - 9007199254740992)`, `I64f(1 + 2)`, `I64f(1)`, `Inc(1 + 1)`, `Add(2 * 3, 4)`, `Sum(1, 2 + 3)`, `Sum()`, `Id(1 + 1)`, `Fast(1, "a")`,
 	`Cat("a", "b")`, `Cat("a" + "b", "c")`, `Fail()`, `IsPos(1)`, `Id(nil)`, `Id([1, 2])`, `Inc(Inc(1))`, `Inc(I)`, `Half(1.5)`, `Half(1 / 0)`,
 	`[1, 2][0:1]`, `[1 + 1, 2][0:1]`, `Ints[1 + 1:3]`, `Ints[0:1 + 1]`, `[1, 2][1 - 1]`, `[1, 2] == Ints`, `[1, 2] == [1, 2]`, `[1, 2] != Anys`, `["a"] == Strs`, `I in [[1, 2]][0]`,
@@ -629,6 +639,9 @@ func optCorrespondence(c *Ctx, flags OptFlags, cases []*optCase) []*optCase {
 		}
 		canonSets(m)
 		model = m.String()
+		if t := os.Getenv("VERIF_C02_TRACE"); t != "" && t == cs.Src {
+			fmt.Fprintf(os.Stderr, "TRACE %s\n before: %s\n impl:   %s\n model:  %s\n", cs.String(), cs.Real.Before, impl, model)
+		}
 		if impl != model {
 			r.Mismatch("optimize", cs.String()+" flags: "+flags.String()+" tree="+cs.Real.Before, model, impl+"  ("+cs.Real.Msg+")")
 			continue
@@ -751,6 +764,7 @@ type pendingViolation struct {
 }
 
 type oracle struct {
+	mu         sync.Mutex
 	maxPending int
 	c          *Ctx
 	flags      OptFlags
@@ -787,11 +801,7 @@ func (or *oracle) comparePair(cs *optCase, pair string, xFns []string, x, y comp
 	}
 	add := func(envVal interface{}, what, expect, got, hint string, logs bool) {
 		r.Count("oracle:deviations", 1)
-		if len(or.pending) >= or.maxPending {
-			r.Count("oracle:deviations-not-reported(cap)", 1)
-			return
-		}
-		or.pending = append(or.pending, &pendingViolation{cs: cs, envVal: envVal, pair: pair, what: what, expect: expect, got: got, fns: xFns, hint: hint, logs: logs})
+		cs.found = append(cs.found, &pendingViolation{cs: cs, envVal: envVal, pair: pair, what: what, expect: expect, got: got, fns: xFns, hint: hint, logs: logs})
 	}
 	if x.Panicked || y.Panicked {
 		r.Count("oracle:compile-panicked", 1)
@@ -1156,22 +1166,25 @@ func runC02(c *Ctx) {
 	}
 	runWitnesses(c) // first, so that the replay written per key is the minimal witness
 	n := 5000
-	nOracle := 600
+	nOracle := 400
 	maxPending := 150
 	if c.Thorough() {
 		n, nOracle, maxPending = 120000, 40000, 2000
 	}
-	cases := genOptCases(c, n)
+	var cases []*optCase
 	for i, src := range optFixed {
 		for _, mapEnv := range []bool{false, true} {
-			e := NewEnv(i, func(k int) int { return (i + 1) % k })
-			cs := &optCase{Src: src, Site: "fixed", MapEnv: mapEnv, Env: e, EnvVal: e, Fns: oConstSets[2]}
-			if mapEnv {
-				cs.EnvVal = oMapEnv(e)
+			for _, fns := range [][]string{nil, oConstSets[2]} {
+				e := NewEnv(i, func(k int) int { return (i + 1) % k })
+				cs := &optCase{Src: src, Site: "fixed", MapEnv: mapEnv, Env: e, EnvVal: e, Fns: fns}
+				if mapEnv {
+					cs.EnvVal = oMapEnv(e)
+				}
+				cases = append(cases, cs)
 			}
-			cases = append(cases, cs)
 		}
 	}
+	cases = append(cases, genOptCases(c, n)...)
 	t0 := time.Now()
 	done := optCorrespondence(c, flags, cases)
 	r.Note("correspondence: %.1fs", time.Since(t0).Seconds())
@@ -1198,26 +1211,61 @@ func runC02(c *Ctx) {
 	// (ii) oracle on the real code
 	or := &oracle{c: c, flags: flags, maxPending: maxPending}
 	k := 0
+	var todo []*optCase
 	for _, cs := range done {
-		if cs.Site != "fixed" && cs.Site != "boundary" && k >= nOracle {
-			continue
-		}
-		if cs.Site != "fixed" {
+		if cs.Site != "fixed" && cs.Site != "boundary" {
+			if k >= nOracle {
+				continue
+			}
 			k++
 		}
-		envs := []*Env{cs.Env, NewEnv(k, func(m int) int { return c.Rng.Intn(m) })}
-		tcase := time.Now()
-		off := compileReal(cs.Src, cs.EnvVal, false, nil)
-		on := compileReal(cs.Src, cs.EnvVal, true, nil)
-		or.comparePair(cs, "optimize-on/off", nil, on, off, envs)
-		r.Count("oracle:sources", 1)
-		if len(cs.Fns) > 0 {
-			onCE := compileReal(cs.Src, cs.EnvVal, true, cs.Fns)
-			or.comparePair(cs, "constexpr-on/off", cs.Fns, onCE, on, envs)
-			or.comparePair(cs, "optimize+constexpr/off", cs.Fns, onCE, off, envs)
-		}
-		if d := time.Since(tcase); d > 200*time.Millisecond && os.Getenv("VERIF_C02_SLOW") != "" {
-			fmt.Fprintf(os.Stderr, "slow oracle case %.2fs: %s\n", d.Seconds(), cs.Src)
+		cs.env2 = NewEnv(k, func(m int) int { return c.Rng.Intn(m) })
+		todo = append(todo, cs)
+	}
+	oMapEnv(NewEnv(0, func(int) int { return 0 })) // registers the additional functions before the workers start
+	workers := runtime.NumCPU() / 2
+	if workers < 1 {
+		workers = 1
+	}
+	if workers > 8 {
+		workers = 8
+	}
+	jobs := make(chan *optCase)
+	var wg sync.WaitGroup
+	for w := 0; w < workers; w++ {
+		wg.Add(1)
+		go func() {
+			defer wg.Done()
+			for cs := range jobs {
+				tcase := time.Now()
+				envs := []*Env{cs.Env, cs.env2}
+				off := compileReal(cs.Src, cs.EnvVal, false, nil)
+				on := compileReal(cs.Src, cs.EnvVal, true, nil)
+				or.comparePair(cs, "optimize-on/off", nil, on, off, envs)
+				r.Count("oracle:sources", 1)
+				if len(cs.Fns) > 0 {
+					onCE := compileReal(cs.Src, cs.EnvVal, true, cs.Fns)
+					or.comparePair(cs, "constexpr-on/off", cs.Fns, onCE, on, envs)
+					or.comparePair(cs, "optimize+constexpr/off", cs.Fns, onCE, off, envs)
+				}
+				if d := time.Since(tcase); d > 200*time.Millisecond && os.Getenv("VERIF_C02_SLOW") != "" {
+					fmt.Fprintf(os.Stderr, "slow oracle case %.2fs: %s\n", d.Seconds(), cs.Src)
+				}
+			}
+		}()
+	}
+	for _, cs := range todo {
+		jobs <- cs
+	}
+	close(jobs)
+	wg.Wait()
+	for _, cs := range todo { // in generation order: the report does not depend on scheduling
+		for _, pv := range cs.found {
+			if len(or.pending) >= or.maxPending {
+				r.Count("oracle:deviations-not-reported(cap)", 1)
+				continue
+			}
+			or.pending = append(or.pending, pv)
 		}
 	}
 	r.Count("oracle:pending-violations", len(or.pending))
